@@ -682,6 +682,8 @@ def check_scenario(ctx, scen, label):
             store = expected_store(prefix, t0)
             store_json = [cjson(r) for r in store]
             info = {"history": prefix, "t0_utc_ms": t0}
+            if si:          # a replay makes the requests of the earlier stages again (what they left behind may matter)
+                info["mid"] = [{"at": st_["at"], "requests": st_["requests"]} for st_ in stages[:si] if st_["requests"]]
             resp = {be: r.resp for be, r in runners.items()}
             # ---- same history, same store on both back-ends --------------------------------
             if resp["Dictionary"] != resp["TinyDB"]:
@@ -725,6 +727,8 @@ def check_requests(ctx, luts, store, store_json, reqs, info, label, model=None):
                 kinds_ok = order_kinds_ok(store, q)
                 want = spec_query(store, q) if kinds_ok else None
                 inp = {"history": hist, "t0_utc_ms": t0, "requests": [q]}
+                if info.get("mid"):
+                    inp["mid"] = info["mid"]
                 got = {}
                 for be in ("Dictionary", "TinyDB"):
                     code, data = impl_request(luts[be], q)
@@ -941,7 +945,7 @@ def run(ctx):
     n_scen = 120 if ctx.tier == "quick" else 1500
     for _ in range(n_scen):
         check_scenario(ctx, gen_scenario(rng, rng.choice((1, 3, 6, 10, 15, 25)), 60), "seeded")
-    n_audit = 36 if ctx.tier == "quick" else 900
+    n_audit = 36 if ctx.tier == "quick" else 600
     for _ in range(n_audit):
         check_scenario(ctx, gen_scenario(rng, rng.choice((2, 4, 8, 12, 20, 30)), 30 if ctx.tier == "quick" else 40, "audit"), "seeded_audit")
     if ctx.tier != "quick":
@@ -956,7 +960,8 @@ def replay(ctx, data):
     print(json.dumps(f, default=str)[:3000])
     ctx.model = common.Model(MODEL_NAME)
     inp = f["input"]
-    check_scenario(ctx, {"history": inp["history"], "t0_utc_ms": inp["t0_utc_ms"], "requests": inp.get("requests", [])}, "replay")
+    check_scenario(ctx, {"history": inp["history"], "t0_utc_ms": inp["t0_utc_ms"], "requests": inp.get("requests", []),
+                         "mid": inp.get("mid")}, "replay")
     if f.get("kind") == "property_failure":
         hits = [r for r in ctx.failures + list(ctx.known_hits.values()) if r["class"] == f["class"]]
     else:
